@@ -276,6 +276,19 @@ def run_shard(spec):
                         viol("store_copy.key", "store copy reports key %r" % (smd.get("key"),))
                 except Exception as e:
                     viol("store_copy.missing", "store keeps no metadata for %r saved under %r: %r" % (q, store_key, e))
+        # a labelled extension evaluated while the query is warm must not rub off on the query's own metadata
+        if cache is not None and out.ok and pq.segments[-1].filename is None and not out.volatile and out.caching:
+            try:
+                Context().evaluate(canon + "/lbl.html")
+                st3 = Context().evaluate(q)
+                env.count("relabel_checks")
+                if not st3.is_error:
+                    check_success(env, q, st3.metadata, out, st3.get(), "returned_after_labelled_extension", viol, registry)
+                    cm = cache.get_metadata(canon)
+                    if cm is not None:
+                        check_success(env, q, cm, out, st3.get(), "cache_copy_after_labelled_extension", viol, registry)
+            except Exception:
+                pass
         if len(samples) < 2 and stats["evaluations"] % 41 == 5:
             samples.append(case)
 
@@ -304,7 +317,7 @@ def replay(spec):
 def finalize(m, tier, seed):
     inc = []
     for k in ["mode." + x for x in MODES] + ["failing_evaluations", "cache_copies_checked", "store_copies_checked", "feature.filename",
-                                              "feature.sub_evaluation", "feature.link.relative", "feature.namespace", "feature.cmd.attr_up"]:
+                                              "feature.sub_evaluation", "feature.sub_evaluation.failing", "relabel_checks", "feature.link.relative", "feature.namespace", "feature.cmd.attr_up"]:
         if not m["counters"].get(k):
             inc.append("coverage class %s empty" % k)
     return {"inconclusive": inc}
